@@ -45,6 +45,15 @@ def make_source(desc):
         return StackWrapper(list(desc[1]))
     if k == "sge":
         return StructuredListWrapper({"$infrastructure": list(desc[1])})
+    if k == "dsge":
+        # the genotype-backed source dSGE hands to metahandlers during mapping; genes as left by
+        # create (0..1024) and by mutate (0..sys.maxsize)
+        from geneticengine.representations.grammatical_evolution import dynamic_structured_ge as d
+
+        if not hasattr(d, "GenotypeSource"):
+            return NativeRandomSource(0)
+        gt = d.Genotype(NativeRandomSource(desc[2] if len(desc) > 2 else 0), {int: list(desc[1]), float: list(desc[1]), bool: list(desc[1])})
+        return d.GenotypeSource(d.DynamicSGEDecider(gt, _tiny_grammar(), 5))
     raise ValueError(desc)
 
 
@@ -194,7 +203,7 @@ def gene_lists(draw, calls):
 @st.composite
 def source_cases(draw):
     calls = draw(call_seq())
-    kind = draw(st.sampled_from(["native", "ge", "stack", "sge"]))
+    kind = draw(st.sampled_from(["native", "ge", "stack", "sge", "dsge"]))
     if kind == "native":
         desc = ["native", draw(st.integers(0, 2**32))]
     else:
